@@ -31,6 +31,7 @@ import (
 	"strings"
 	"sync"
 	"sync/atomic"
+	"time"
 
 	"github.com/massnetorg/mass-core/massutil"
 	"github.com/massnetorg/mass-core/poc"
@@ -83,9 +84,18 @@ type budgetWallet struct {
 	*keystore.KeystoreManagerForPoC
 	left      int64
 	exhausted int32
+	// hold (overlap scenarios): the first key request announces itself on entered and waits for hold to be closed - a
+	// configure call that is slow inside the wallet
+	hold    chan struct{}
+	entered chan struct{}
+	held    int32
 }
 
 func (b *budgetWallet) GenerateNewPublicKey() (*pocec.PublicKey, uint32, error) {
+	if b.hold != nil && atomic.CompareAndSwapInt32(&b.held, 0, 1) {
+		close(b.entered)
+		<-b.hold
+	}
 	if atomic.AddInt64(&b.left, -1) < 0 {
 		atomic.StoreInt32(&b.exhausted, 1)
 		return nil, 0, errBudget
@@ -1605,6 +1615,108 @@ func (s *scen) setup() bool {
 	return true
 }
 
+// overlapScenario: a configure request that is still running (held inside the wallet's key generation) while 2-4 more
+// requests for the same directory and size arrive one after the other, then it is let go.  Whatever subset of the
+// requests the keeper accepts, the requests are identical, so serving them one at a time always ends with exactly the
+// spaces one request needs: a later accepted request finds the earlier one's spaces indexed and reuses them.
+func overlapScenario(run *vh.Run, ci int, rng *vh.Rng) {
+	wc, err := getWallet(run)
+	if err != nil {
+		run.Drop("wallet-setup-failed")
+		return
+	}
+	defer putWallet(wc)
+	if wc.w.M.IsLocked() {
+		if err := wc.w.M.Unlock([]byte(privPass)); err != nil {
+			run.Drop("wallet-unlock-failed")
+			return
+		}
+	}
+	root := filepath.Join(run.Scratch, fmt.Sprintf("ov%d", ci))
+	dir := filepath.Join(root, "plots")
+	os.MkdirAll(dir, 0o755)
+	defer os.RemoveAll(root)
+	defer runtime.GC()
+	bw := &budgetWallet{KeystoreManagerForPoC: wc.w.M, hold: make(chan struct{}), entered: make(chan struct{})}
+	bw.reset()
+	ski, err := capacity.NewSpaceKeeperV1(&config.Config{Miner: &config.Miner{ProofDir: []string{dir}}}, bw)
+	if err != nil {
+		run.Drop("overlap: keeper construction failed")
+		return
+	}
+	k := ski.(*capacity.SpaceKeeper)
+	nSpaces := rng.Range(1, 2)
+	size := uint64(nSpaces) * ps(24)
+	method := rng.PickS("BySize", "BySize", "ByPath", "ByBitLength")
+	call := func() ([]engine.WorkSpaceInfo, error) {
+		switch method {
+		case "ByPath":
+			return k.ConfigureByPath([]string{dir}, []int{int(size)}, false, false)
+		case "ByBitLength":
+			return k.ConfigureByBitLength(map[int]int{24: nSpaces}, false, false)
+		}
+		return k.ConfigureBySize(size, false, false)
+	}
+	type resT struct {
+		n   int
+		err error
+	}
+	aDone := make(chan resT, 1)
+	go func() { infos, err := call(); aDone <- resT{len(infos), err} }()
+	select {
+	case <-bw.entered:
+	case r := <-aDone:
+		run.Drop(fmt.Sprintf("overlap: the first request ended without asking the wallet for a key (%d spaces, err %v)", r.n, r.err))
+		return
+	case <-time.After(60 * time.Second):
+		run.Drop("overlap: the first request did not reach the wallet within 60 s")
+		close(bw.hold)
+		return
+	}
+	// the first request is in flight; the others arrive one after the other
+	later := rng.Range(2, 4)
+	accepted := 0
+	var outcomes []string
+	for j := 0; j < later; j++ {
+		infos, err := call()
+		outcomes = append(outcomes, fmt.Sprintf("request %d while the first was running: %d spaces, err %v", j+2, len(infos), err))
+		if err == nil {
+			accepted++
+		}
+	}
+	close(bw.hold)
+	var ra resT
+	select {
+	case ra = <-aDone:
+	case <-time.After(120 * time.Second):
+		run.Drop("overlap: the first request did not finish within 120 s after it was let go")
+		return
+	}
+	outcomes = append([]string{fmt.Sprintf("request 1 (held in the wallet meanwhile): %d spaces, err %v", ra.n, ra.err)}, outcomes...)
+	if ra.err == nil {
+		accepted++
+	}
+	files := 0
+	if es, err := os.ReadDir(dir); err == nil {
+		for _, e := range es {
+			if strings.HasSuffix(e.Name(), ".massdb") && !strings.Contains(e.Name(), "_a.") {
+				files++
+			}
+		}
+	}
+	run.Count("overlapping_configure_scenarios", 1)
+	run.Count("overlapping_requests_accepted", int64(accepted))
+	want := 0
+	if accepted > 0 {
+		want = nSpaces
+	}
+	if files > want {
+		run.Violate(ci, "overlapping-requests-created-more-spaces-than-one-request-needs", map[string]string{"method": method},
+			map[string]interface{}{"requests": outcomes, "identical_request": fmt.Sprintf("%s for %d x PlotSize(24) in one directory", method, nSpaces), "plot_files_on_disk": files, "one_request_needs": want, "accepted_requests": accepted})
+	}
+	run.Case(vh.HashS(fmt.Sprintf("overlap-%s-%d-%d", method, nSpaces, later)), true)
+}
+
 func runScenario(run *vh.Run, ci int, rng *vh.Rng) {
 	wc, err := getWallet(run)
 	if err != nil {
@@ -1675,6 +1787,12 @@ func main() {
 			return
 		}
 		runScenario(run, ci, root.Derive("scenario", ci))
+	})
+	nOv := run.N(16, 300)
+	vh.Parallel(nOv, 4, func(oi int) {
+		if run.Want(n + oi) {
+			overlapScenario(run, n+oi, root.Derive("overlap", oi))
+		}
 	})
 	if run.Only < 0 {
 		if run.Counter("restarts_compared") == 0 {
